@@ -2,7 +2,10 @@
 
 package service
 
-import "github.com/mdzio/go-mqtt/message"
+import (
+	"github.com/mdzio/go-mqtt/message"
+	"github.com/mdzio/go-mqtt/topics"
+)
 
 // C08: retained messages - last one per topic, cleared by an empty payload,
 // delivered intact (retain flag set, QoS downgraded) to new subscriptions only.
@@ -230,4 +233,44 @@ func H08b_update_during_subscribe() {
 		vrtAssert("C08.new_subscription_ends_with_current_value", ok)
 	}
 	vrtReach("C08.update_during_subscribe")
+}
+
+// H08c_capped_grant: the provider caps the granted QoS below what the client
+// asks for; a retained message stored at a higher QoS reaches the new
+// subscription at min(stored, GRANTED) - the granted value being what the
+// SUBACK reports - with its payload intact.
+func H08c_capped_grant() {
+	cap := vrtByte("cap")
+	vrtAssume(cap <= 2)
+	topics.MaxQosAllowed = 2
+	b := vrtBroker("mockSuccess")
+	pub, _ := b.connect(vrtConnectPkt([]byte("p"), true))
+	qs := vrtByte("stored_qos")
+	vrtAssume(qs <= 2)
+	pk := &specPkt{Typ: specPUBLISH, Flags: 1 | qs<<1, Topic: []byte("r"), Payload: []byte("v")}
+	if qs > 0 {
+		pk.ID = 3
+	}
+	vrtExchange(pub, pk)
+	if qs == 2 {
+		vrtExchange(pub, &specPkt{Typ: specPUBREL, ID: 3})
+	}
+	topics.MaxQosAllowed = cap
+	qr := vrtByte("requested_qos")
+	vrtAssume(qr <= 2)
+	granted := specMinQos(qr, cap)
+	s, _ := b.connect(vrtConnectPkt([]byte("s"), true))
+	ans := vrtExchange(s, &specPkt{Typ: specSUBSCRIBE, ID: 1, Topics: [][]byte{[]byte("r")}, QoS: []byte{qr}})
+	topics.MaxQosAllowed = 2
+	pkts, ok := vrtParse(ans)
+	vrtAssert("C08.stream_wellformed", ok && len(pkts) == 2)
+	if !(ok && len(pkts) == 2) {
+		return
+	}
+	vrtAssert("C08.suback_reports_capped_grant", vrtAnd(pkts[0].Typ == specSUBACK, vrtAnd(len(pkts[0].Codes) == 1, len(pkts[0].Codes) == 1 && pkts[0].Codes[0] == granted)))
+	r := pkts[1]
+	vrtAssert("C08.retained_delivered_once", vrtAnd(r.Typ == specPUBLISH, r.Flags&1 == 1))
+	vrtAssert("C08.retained_qos_downgraded", (r.Flags>>1)&3 == specMinQos(qs, granted))
+	vrtAssert("C08.retained_payload_intact", vrtBytesEq(r.Payload, []byte("v")))
+	vrtReach("C08.capped_grant")
 }
